@@ -480,6 +480,28 @@ def run(world, rep, tier, only=None):
                    T.pp(a)[:60])
     rep.floor("C14.i commit-time comparisons in do_one_pass", n_ct, 4)
 
+    # ------------------------------------------------------------------ C14.j an inode cache slot never holds bytes of another inode than its label
+    # ext2fs_read_inode2() reads into the buffer of a cache slot; if the read fails its checksum (or its I/O) the
+    # buffer holds the rejected inode.  The slot must have lost its old label by then - otherwise the next read of
+    # the old inode is served the altered bytes from the cache, with success and without a checksum error.
+    n_j = 0
+    for f in prog.fns_in_file("lib/ext2fs/inode.c"):
+        labels = [n for n in f.events("S") if T.last_field(n.ev["lhs"]) == ("ext2_inode_cache_ent", "ino")]
+        for i, n in enumerate(calls_to(f, "memcpy", "__builtin___memcpy_chk")):
+            if not depends_on(f, arg(n, 0), lambda y: isinstance(y, dict) and y.get("k") == "m" and
+                              T.last_field(y) == ("ext2_inode_cache_ent", "inode"), depth=3):
+                continue
+            n_j += 1
+            same = any(t and ("ext2_inode_cache_ent", "ino") in T.fields(a) and isinstance(T.strip(a), dict) and
+                       T.strip(a).get("o") == "==" for t, a in control_lits(f, n))
+            invalidated = f.dominated_by(n, [s_ for s_ in labels if T.const(s_.ev.get("rhs")) == 0])
+            relabelled = bool(labels) and f.must_pass_after(n, labels)
+            rep.ob("C14.j", site(f, "cache slot buffer overwritten only under a matching or cleared label#%d" % i),
+                   same or invalidated or relabelled,
+                   "`%s` (line %d): same inode (`cache[i].ino == ino`): %s; slot invalidated first: %s; label stored on every path after: %s" %
+                   (n.text()[:40], n.line, same, invalidated, relabelled))
+    rep.floor("C14.j copies into inode cache slots", n_j, 2)
+
     # ------------------------------------------------------------------ C14.f CRC tables
     crc_tables(world, rep)
 
